@@ -84,6 +84,25 @@ DefMethod(f, d) == /\ Defined(f) /\ ~Has(f, d)
 Next == /\ Len(hist) < MaxOps
         /\ \/ \E f \in F, cs \in SeqsUpTo(F, MaxComps), hv \in BOOLEAN : DefFlavor(f, cs, hv)
            \/ \E f \in F, d \in Daemons : DefMethod(f, d)
+\* ---- directed histories: a wide component shared by two sibling flavors ---------------------------------------------
+\* w leaves with a daemon each, P made of them (with or without a method of its own), Q and R with a daemon each, and
+\* the siblings (P Q) and (P R) in both orders: the method tables of the siblings are built from the same inherited
+\* table of P and must not influence each other.
+DF(f, cs) == [op |-> "defflavor", f |-> f, cs |-> cs, d |-> ""]
+DM(f, d) == [op |-> "defmethod", f |-> f, cs |-> <<>>, d |-> d]
+WideDaemons == {"before", "primary", "after"}
+RECURSIVE Leaves(_, _)
+Leaves(ds, i) == IF i > Len(ds) THEN <<>> ELSE <<DF(FSeq[i], <<>>), DM(FSeq[i], ds[i])>> \o Leaves(ds, i + 1)
+Script(ds, pd, dq, dr, swap) ==
+  LET w == Len(ds)  P == FSeq[w + 1]  Q == FSeq[w + 2]  R == FSeq[w + 3] IN
+  Leaves(ds, 1) \o <<DF(P, [i \in 1..w |-> FSeq[i]])>> \o (IF pd = "" THEN <<>> ELSE <<DM(P, pd)>>)
+  \o <<DF(Q, <<>>), DM(Q, dq), DF(R, <<>>), DM(R, dr)>>
+  \o <<DF(FSeq[w + 4], <<P, IF swap THEN R ELSE Q>>), DF(FSeq[w + 5], <<P, IF swap THEN Q ELSE R>>)>>
+Scripts == {Script(ds, pd, dq, dr, swap) : ds \in UNION {[1..w -> WideDaemons] : w \in 1..3}, pd \in WideDaemons \cup {""},
+                                            dq \in WideDaemons, dr \in WideDaemons, swap \in BOOLEAN}
+NextWide == \E sc \in Scripts :
+              /\ Len(hist) < Len(sc) /\ SubSeq(sc, 1, Len(hist)) = hist
+              /\ LET o == sc[Len(hist) + 1] IN IF o.op = "defflavor" THEN DefFlavor(o.f, o.cs, FALSE) ELSE DefMethod(o.f, o.d)
 \* what must be observed after the history, for every defined flavor
 Expect == [f \in {g \in F : Defined(g)} |->
              [prec |-> Prec(f), handles |-> Handles(f), primary |-> HasPrimary(f), trace |-> SendTrace(f),
@@ -92,6 +111,7 @@ Emit == Len(hist') < EmitFrom \/ PrintT(ToJson([hist |-> hist', expect |-> Expec
 \* random walks (tlc -simulate) evaluate an invariant on the states of the walk only; printing from there gives
 \* one line per walk step instead of one per enabled successor
 EmitState == Len(hist) < EmitFrom \/ PrintT(ToJson([hist |-> hist, expect |-> Expect, feat |-> feat]))
+EmitWide == hist \notin Scripts \/ PrintT(ToJson([hist |-> hist, expect |-> Expect, feat |-> feat]))
 View == <<comps, hasvar, dm>>
 \* ---- properties of the reference itself (design check) --------------------------------------
 PrecOK == \A f \in F : Defined(f) => /\ Prec(f)[1] = f /\ NoDup(Prec(f))
